@@ -9,7 +9,7 @@ from .interp import InterpBase, Frame, parse_expr
 
 SPEC_FUNCS = {"forall", "exists", "implies", "ite", "old", "prev", "defined", "seq_eq", "iff", "let", "count_true",
               "is_none", "opt_val", "strlen", "char_at", "substr", "in_re", "fresh_int", "imin", "imax",
-              "to_real", "distinct", "uf_str", "uf_int", "uf_bool", "seq", "lam_seq", "str_of_int", "absv", "present", "iter_pos", "py_strip", "py_lower", "py_upper", "np_cast", "in_re"}
+              "to_real", "distinct", "uf_str", "uf_int", "uf_bool", "seq", "lam_seq", "str_of_int", "absv", "present", "iter_pos", "py_strip", "py_lower", "py_upper", "py_rstrip", "py_lstrip", "np_cast", "in_re"}
 
 
 class EvalMixin(InterpBase):
